@@ -106,6 +106,27 @@ def sin_cos_facts(t):
     s, c = F_SIN(t), F_COS(t)
     E.PENDING_FACTS.append(s * s + c * c == 1)
     E.PENDING_FACTS.append(z3.And(s >= -1, s <= 1, c >= -1, c <= 1))
+    # ground instances of 2*pi periodicity (A-TRIG)
+    E.PENDING_FACTS.append(z3.And(s == F_SIN(t + 2 * PI), s == F_SIN(t - 2 * PI),
+                                  c == F_COS(t + 2 * PI), c == F_COS(t - 2 * PI)))
+
+
+F_D2R = z3.Function("deg2rad", V.REAL, V.REAL)
+F_R2D = z3.Function("rad2deg", V.REAL, V.REAL)
+
+
+def m_deg2rad(x):
+    t = real(x)
+    r = F_D2R(t)
+    E.PENDING_FACTS.append(r * 180 == t * PI)
+    return r
+
+
+def m_rad2deg(x):
+    t = real(x)
+    r = F_R2D(t)
+    E.PENDING_FACTS.append(r * PI == t * 180)
+    return r
 
 
 def m_sin(x):
@@ -213,9 +234,9 @@ def _unit_conv(name, fn, src, dst):
 
 
 MODELS["numpy.deg2rad"] = MODELS["numpy.radians"] = MODELS["math.radians"] = _unit_conv(
-    "deg2rad", lambda x: real(x) * PI / 180, "deg", "rad")
+    "deg2rad", m_deg2rad, "deg", "rad")
 MODELS["numpy.rad2deg"] = MODELS["numpy.degrees"] = MODELS["math.degrees"] = _unit_conv(
-    "rad2deg", lambda x: real(x) * 180 / PI, "rad", "deg")
+    "rad2deg", m_rad2deg, "rad", "deg")
 
 
 @model("numpy.abs", "numpy.absolute", "numpy.fabs", "builtins.abs")
@@ -994,6 +1015,16 @@ def sp_acos(ex, args, kwargs, node):
 @spec("atan2")
 def sp_atan2(ex, args, kwargs, node):
     return m_atan2(args[0], args[1])
+
+
+@spec("deg2rad")
+def sp_deg2rad(ex, args, kwargs, node):
+    return m_deg2rad(args[0])
+
+
+@spec("rad2deg")
+def sp_rad2deg(ex, args, kwargs, node):
+    return m_rad2deg(args[0])
 
 
 @spec("sqrt")
